@@ -624,3 +624,384 @@ theorem Iter.casesOf {env : Env} {sn : String} {brace : Tok} {n m : Nat} {s s' :
   induction h with
   | nil => rfl
   | cons htk hwf _ hb _ ih => exact ⟨_, _, _, htk, hwf, hb, ih⟩
+
+/-! ### the operand loop of `switch (var(…))` -/
+
+/-- `switchOperandLoop` up to the first `)` on a known token list. -/
+theorem oploop_run (ot : Tok) (s : PState) (rp : Tok) (rest : List Tok) (hrp : rp.type = .RPAREN) :
+    ∀ (ops : List Tok) (n : Nat) (parts : List String),
+      (∀ o ∈ ops, o.type ≠ .RPAREN ∧ o.type ≠ .EOF) → ops.length < n →
+      (parseSwitchStatement.switchOperandLoop ot n parts).run (st s (ops ++ rp :: rest)) =
+        .ok (parts ++ ops.map (fun o => substC s.constants o.lit), st s (rp :: rest)) := by
+  intro ops
+  induction ops with
+  | nil =>
+    intro n parts _ hn
+    obtain ⟨n, rfl⟩ : ∃ k, n = k + 1 := ⟨n - 1, by simp at hn; omega⟩
+    rw [parseSwitchStatement.switchOperandLoop]
+    rsimp [beq_true_of_eq hrp, List.map_nil, List.append_nil]
+  | cons o ops ih =>
+    intro n parts h1 hn
+    obtain ⟨n, rfl⟩ : ∃ k, n = k + 1 := ⟨n - 1, by simp at hn; omega⟩
+    rw [parseSwitchStatement.switchOperandLoop]
+    have ho := h1 o (by simp)
+    have := ih n (parts ++ [substC s.constants o.lit]) (fun x hx => h1 x (by simp [hx])) (by simp at hn; omega)
+    rsimp [beq_false_of_ne ho.1, beq_false_of_ne ho.2, this, List.map_cons, List.append_assoc]
+
+/-- Converse of `oploop_run`. -/
+theorem oploop_inv (ot : Tok) :
+    ∀ (n : Nat) (parts : List String) (s : PState) (r : List String) (s' : PState),
+      s.eof.type = .EOF →
+      (parseSwitchStatement.switchOperandLoop ot n parts).run s = .ok (r, s') →
+      ∃ ops rp rest, s.toks = ops ++ rp :: rest ∧ (∀ o ∈ ops, o.type ≠ .RPAREN ∧ o.type ≠ .EOF) ∧
+        rp.type = .RPAREN ∧ ops.length < n ∧
+        r = parts ++ ops.map (fun o => substC s.constants o.lit) ∧ s' = st s (rp :: rest) := by
+  intro n
+  induction n with
+  | zero =>
+    intro parts s r s' _ h
+    rw [parseSwitchStatement.switchOperandLoop] at h
+    cases h
+  | succ n ih =>
+    intro parts s r s' he h
+    rw [parseSwitchStatement.switchOperandLoop] at h
+    rsimp at h
+    by_cases hc : ((s.toks.headD s.eof).type == TT.RPAREN) = true
+    · rsimp [hc] at h
+      have h := ok_inj h
+      cases htk : s.toks with
+      | nil => rw [htk] at hc; simp [he] at hc
+      | cons c tl =>
+        rw [htk] at hc
+        refine ⟨[], c, tl, rfl, by simp, by simpa using hc, by simp, ?_, ?_⟩
+        · simp [← (Prod.mk.inj h).1]
+        · rw [← (Prod.mk.inj h).2, ← htk]; rfl
+    · rsimp [hc] at h
+      by_cases hn : ((s.toks.headD s.eof).type == TT.EOF) = true
+      · rsimp [hn] at h
+        cases h
+      · rsimp [hn] at h
+        obtain ⟨ops, rp, rest, h1, h2, h3, h5, h6, h7⟩ := ih _ _ _ _ (by exact he) h
+        cases htk : s.toks with
+        | nil => rw [htk] at h1; simp at h1
+        | cons c tl =>
+          rw [htk] at hc h1 hn
+          simp only [st_toks, List.tail_cons] at h1
+          simp only [List.headD_cons] at hn hc
+          refine ⟨c :: ops, rp, rest, by rw [h1]; rfl, ?_, h3, by simp; omega, ?_, ?_⟩
+          · intro v hv
+            rcases List.mem_cons.1 hv with rfl | hv
+            · exact ⟨by simpa using hc, by simpa using hn⟩
+            · exact h2 v hv
+          · rw [h6]; simp [htk]
+          · rw [h7]; rfl
+
+/-! ### the `switch` statement -/
+
+/-- The state after `newSid; pushBreak sid` at the start of a `switch`. -/
+def enter (s : PState) : PState := setB (setSid s (s.nextSid + 1)) (s.nextSid :: s.breakStack)
+/-- The state after `popBreak`. -/
+def leave (s : PState) : PState := setB s s.breakStack.tail
+
+theorem oploop_wp (ot : Tok) (n : Nat) (parts : List String) (s : PState) :
+    wp (parseSwitchStatement.switchOperandLoop ot n parts) s (fun r s' => s.eof.type = .EOF →
+      ∃ ops rp rest, s.toks = ops ++ rp :: rest ∧ (∀ o ∈ ops, o.type ≠ .RPAREN ∧ o.type ≠ .EOF) ∧
+        rp.type = .RPAREN ∧ ops.length < n ∧
+        r = parts ++ ops.map (fun o => substC s.constants o.lit) ∧ s' = st s (rp :: rest)) :=
+  fun r s' hr he => oploop_inv ot n parts s r s' he hr
+
+theorem cases_wp (env : Env) (sn : String) (brace : Tok) (n : Nat) (s : PState) :
+    wp (parseSwitchCases env sn brace n [] [] false {}) s (fun res s' => s.eof.type = .EOF →
+      ∃ (segs : List Seg) (m : Nat), Iter env sn brace n s segs (m + 1) s' ∧
+        (s'.toks.headD s'.eof).type = .RBRACE ∧ Accepted (substC s.constants) [] false segs ∧
+        res = (segs.map (Seg.case (substC s.constants)), hdAfter false segs, impAfter {} segs)) :=
+  fun res s' hr he => by simpa using iter_of_ok env sn brace n [] [] false {} s res s' he hr
+
+/-- What `expectPeekVarOrAutoVar` returns: `none` after `var (`; for a configured auto-var command the
+command is parsed and the operand is the configured variable name or the configured argument. -/
+def EpvPost (env : Env) (sn : String) (n : Nat) (s : PState) (r : Option (String × Cmd × ImpData))
+    (s' : PState) : Prop :=
+  match r with
+  | none => (s.toks.getD 1 s.eof).type = .VAR ∧ (s.toks.getD 2 s.eof).type = .LPAREN ∧
+      s' = upd s s.toks.tail.tail s.nextCmdId
+  | some (name, cmd, imp) =>
+    (s.toks.getD 1 s.eof).type ≠ .VAR ∧ ∃ av, env.autoVars.lookup (s.toks.getD 1 s.eof).lit = some av ∧
+      (parseCommandStatement env sn n).run (upd s s.toks.tail s.nextCmdId) = .ok ((cmd, imp), s') ∧
+      name = (match av.argPos with | none => av.varName | some pos => cmd.args.getD pos.toNat "") ∧
+      (∀ pos, av.argPos = some pos → 0 ≤ pos ∧ pos ≤ (cmd.args.length : Int) - 1) ∧
+      ∃ l k, s' = upd s l k
+
+theorem epv_wp (env : Env) (sn : String) (n : Nat) (s : PState) :
+    wp (expectPeekVarOrAutoVar env sn n) s (EpvPost env sn n s) := by
+  unfold expectPeekVarOrAutoVar
+  wpsimp [(frame_parseCommandStatement _ _ _).wp_iff]
+  split
+  · rename_i hv
+    split
+    · rename_i hl
+      simp only [EpvPost]
+      exact ⟨by simpa using hv, by simpa using hl, trivial⟩
+    · trivial
+  · rename_i hv
+    have hv' : (s.toks.getD 1 s.eof).type ≠ TT.VAR := by simpa using hv
+    split
+    · rename_i av hav
+      wpsimp [(frame_parseCommandStatement _ _ _).wp_iff]
+      intro a l k hrun
+      split
+      · rename_i hpos
+        wpsimp
+        simp only [EpvPost]
+        refine ⟨hv', av, hav, hrun, by rw [hpos], ?_, _, _, rfl⟩
+        intro pos hp; rw [hpos] at hp; cases hp
+      · rename_i pos hpos
+        wpsimp
+        split
+        · trivial
+        · rename_i hb
+          simp only [EpvPost]
+          refine ⟨hv', av, hav, hrun, by rw [hpos], ?_, _, _, rfl⟩
+          intro p hp
+          rw [hpos] at hp
+          cases hp
+          simp only [Bool.or_eq_true, decide_eq_true_eq, not_or, Int.not_lt, Int.not_lt] at hb
+          omega
+    · wpsimp
+
+/-- How the operand of a `switch` is written.  `s0` is the state whose current token is the `(` after
+`switch`; the relation gives the operand token, the statements put in front of the switch, their implicit
+data, and the state whose current token is the last one before `{`.
+
+* `var`: `( var ( o₁ … oₖ ) x` — the operand is the first operand token carrying the space-joined,
+  constant-substituted literals; the token `x` after the `)` is skipped unchecked.
+* `auto`: `( cmd … )` for an auto-var command: `expectPeekVarOrAutoVar` parses the command (see
+  `EpvPost`); the operand is the command token retyped `IDENT` carrying the variable name; the command
+  itself is put in front of the switch. -/
+inductive OperandAt (env : Env) (sn : String) (n : Nat) (s0 : PState) :
+    Tok → List Stmt → ImpData → PState → Prop
+  | var {lp v lp2 : Tok} {ops : List Tok} {rp x : Tok} {tl : List Tok} :
+      s0.toks = lp :: v :: lp2 :: (ops ++ rp :: x :: tl) → v.type = .VAR → lp2.type = .LPAREN →
+      (∀ o ∈ ops, o.type ≠ .RPAREN ∧ o.type ≠ .EOF) → rp.type = .RPAREN → ops.length < n →
+      OperandAt env sn n s0
+        { ops.headD rp with lit := joinSp (ops.map fun o => substC s0.constants o.lit) } [] {}
+        (st s0 (x :: tl))
+  | auto {name : String} {cmd : Cmd} {aimp : ImpData} {s1 : PState} {last rp : Tok} {tl : List Tok} :
+      (expectPeekVarOrAutoVar env sn n).run s0 = .ok (some (name, cmd, aimp), s1) →
+      s1.toks = last :: rp :: tl → rp.type = .RPAREN →
+      OperandAt env sn n s0 { cmd.tok with type := .IDENT, lit := name } [.cmd cmd] aimp (st s1 (rp :: tl))
+
+/-- **The shape of every successful parse of a `switch` statement.** -/
+inductive SwitchRun (env : Env) (sn : String) (n : Nat) (s : PState) : List Stmt × ImpData → PState → Prop
+  | intro {sw lp : Tok} {tl : List Tok} {operand : Tok} {pre : List Stmt} {oimp : ImpData} {sO : PState}
+      {x lb : Tok} {ctoks : List Tok} {segs : List Seg} {m : Nat} {se : PState} :
+      s.toks = sw :: lp :: tl → lp.type = .LPAREN →
+      OperandAt env sn n (st (enter s) (lp :: tl)) operand pre oimp sO →
+      sO.toks = x :: lb :: ctoks → lb.type = .LBRACE →
+      Iter env sn lb n (st sO ctoks) segs (m + 1) se → (se.toks.headD se.eof).type = .RBRACE →
+      Accepted (substC s.constants) [] false segs → segs ≠ [] →
+      SwitchRun env sn n s
+        (pre ++ [.switch_ sw s.nextSid operand (segs.map (Seg.case (substC s.constants)))],
+          (({} : ImpData).add oimp).add (impAfter {} segs))
+        (leave se)
+
+theorem toks_two {l : List Tok} {e : Tok} {t : TT} (he : e.type = .EOF) (ht : t ≠ .EOF)
+    (h : (l.getD 1 e).type = t) : ∃ a x tl, l = a :: x :: tl ∧ x.type = t := by
+  cases l with
+  | nil => exact absurd (he.symm.trans h).symm ht
+  | cons a l =>
+    cases l with
+    | nil => exact absurd (he.symm.trans h).symm ht
+    | cons x tl => exact ⟨a, x, tl, rfl, h⟩
+
+theorem headD_append_cons (ops : List Tok) (rp : Tok) (r : List Tok) (e : Tok) :
+    (ops ++ rp :: r).headD e = ops.headD rp := by cases ops <;> rfl
+
+/-- Every successful parse of a `switch` statement has the shape `SwitchRun`. -/
+theorem switch_wp (env : Env) (sn : String) (n : Nat) (s : PState) (he : s.eof.type = .EOF) :
+    wp (parseSwitchStatement env sn (n + 1)) s (SwitchRun env sn n s) := by
+  rw [parseSwitchStatement]
+  swp [wp_spec (epv_wp _ _ _ _)]
+  split
+  · rename_i hlp
+    obtain ⟨sw, lp, tl, htk, hlp⟩ := toks_two he (by decide) (beq_iff_eq.mp hlp)
+    intro a s0 hrun hpost
+    split
+    · -- `var ( … )`
+      simp only [EpvPost, upd_toks, upd_eof, setB_eof, setSid_eof, htk, List.tail_cons] at hpost
+      obtain ⟨hv, hlp2, rfl⟩ := hpost
+      obtain ⟨v, tl2, rfl⟩ : ∃ v tl2, tl = v :: tl2 := by
+        cases tl with
+        | nil => simp [he] at hv
+        | cons v tl2 => exact ⟨v, tl2, rfl⟩
+      obtain ⟨lp2, tl3, rfl⟩ : ∃ v tl3, tl2 = v :: tl3 := by
+        cases tl2 with
+        | nil => simp [he] at hlp2
+        | cons v tl3 => exact ⟨v, tl3, rfl⟩
+      simp only [getD_one, getD_two] at hv hlp2
+      swp [wp_spec (oploop_wp _ _ _ _), wp_spec (cases_wp _ _ _ _ _)]
+      intro parts s1 _ hop
+      obtain ⟨ops, rp, rest, rfl, hops, hrp, hlen, rfl, rfl⟩ := hop he
+      simp only [st_toks, st_eof, upd_eof, setB_eof, setSid_eof, List.tail_cons, st_constants, upd_constants,
+        setB_constants, setSid_constants]
+      split
+      · rename_i hlb0
+        obtain ⟨x, lb, ctoks, rfl, hlb⟩ := toks_two he (by decide) (beq_iff_eq.mp hlb0)
+        simp only [List.tail_cons, List.headD_cons]
+        intro res se _ hcs
+        obtain ⟨segs, m, hit, hend, hacc, rfl⟩ := hcs he
+        split
+        · trivial
+        · rename_i hne
+          rw [htk]
+          have := @SwitchRun.intro env sn n s sw lp _ _ _ _ _ x lb ctoks segs m se htk hlp
+            (OperandAt.var (x := x) (tl := lb :: ctoks) rfl hv hlp2 hops hrp hlen) rfl hlb hit hend hacc
+            (by intro h; subst h; simp at hne)
+          simp only [List.headD_cons, headD_append_cons, List.nil_append]
+          exact this
+      · trivial
+    · -- auto-var command
+      rename_i name cmd aimp
+      have hs0 : s0.eof = s.eof := by
+        obtain ⟨_, _, _, _, _, _, l, k, rfl⟩ := hpost
+        rfl
+      have hc0 : s0.constants = s.constants := by
+        obtain ⟨_, _, _, _, _, _, l, k, rfl⟩ := hpost
+        rfl
+      have he0 : s0.eof.type = .EOF := by rw [hs0]; exact he
+      swp [wp_spec (cases_wp _ _ _ _ _)]
+      split
+      · rename_i hrp0
+        obtain ⟨last, rp, tl1, htk1, hrp⟩ := toks_two he0 (by decide) (beq_iff_eq.mp hrp0)
+        simp only [htk1, List.tail_cons]
+        split
+        · rename_i hlb0
+          obtain ⟨rp', lb, ctoks, hrl, hlb⟩ := toks_two he0 (by decide) (beq_iff_eq.mp hlb0)
+          cases hrl
+          simp only [List.tail_cons, List.headD_cons]
+          intro res se _ hcs
+          obtain ⟨segs, m, hit, hend, hacc, rfl⟩ := hcs he0
+          split
+          · trivial
+          · rename_i hne
+            rw [hc0] at hacc
+            simp only [hc0]
+            have := @SwitchRun.intro env sn n s sw lp tl _ _ _ _ rp lb ctoks segs m se htk hlp
+              (OperandAt.auto (last := last) (rp := rp) (tl := lb :: ctoks) (by rw [htk] at hrun; exact hrun) htk1 hrp)
+              rfl hlb hit hend hacc (by intro h; subst h; simp at hne)
+            rw [htk]
+            exact this
+        · trivial
+      · trivial
+  · trivial
+
+/-! ### forward direction: the statement on a known shape -/
+
+theorem run_newSid (s : PState) : newSid.run s = .ok (s.nextSid, setSid s (s.nextSid + 1)) := id rfl
+theorem run_pushBreak (sid : Nat) (s : PState) :
+    (pushBreak sid).run s = .ok ((), setB s (sid :: s.breakStack)) := id rfl
+theorem run_popBreak (s : PState) : popBreak.run s = .ok ((), leave s) := id rfl
+theorem enter_toks (s : PState) : (enter s).toks = s.toks := id rfl
+theorem enter_eof (s : PState) : (enter s).eof = s.eof := id rfl
+theorem enter_constants (s : PState) : (enter s).constants = s.constants := id rfl
+theorem leave_toks (s : PState) : (leave s).toks = s.toks := id rfl
+theorem leave_eof (s : PState) : (leave s).eof = s.eof := id rfl
+theorem enter_def (s : PState) : setB (setSid s (s.nextSid + 1)) (s.nextSid :: s.breakStack) = enter s := rfl
+
+/-- What `parseSwitchStatement` does with the result of the case loop. -/
+def finishSwitch (sw : Tok) (sid : Nat) (operand : Tok) (pre : List Stmt) (oimp : ImpData)
+    (r : Except PFail ((List SwitchCase × Bool × ImpData) × PState)) :
+    Except PFail ((List Stmt × ImpData) × PState) :=
+  match r with
+  | .error e => .error e
+  | .ok ((cases, _, cimp), se) =>
+    if cases.isEmpty then
+      .error (newRangeParseError sw (se.toks.headD se.eof) "switch statement has no cases or default case")
+    else .ok ((pre ++ [.switch_ sw sid operand cases], (({} : ImpData).add oimp).add cimp), leave se)
+
+theorem epv_var_run (env : Env) (sn : String) (n : Nat) (s0 : PState) (lp v lp2 : Tok) (r : List Tok)
+    (hv : v.type = .VAR) (hlp2 : lp2.type = .LPAREN) :
+    (expectPeekVarOrAutoVar env sn n).run (st s0 (lp :: v :: lp2 :: r)) = .ok (none, st s0 (lp2 :: r)) := by
+  unfold expectPeekVarOrAutoVar
+  rsimp [beq_true_of_eq hv, beq_true_of_eq hlp2]
+
+/-- **The `switch` statement along its shape**: operand read, then the result of the case loop is passed on
+(errors included). -/
+theorem switch_run {env : Env} {sn : String} {n : Nat} {s : PState} {sw lp : Tok} {tl : List Tok}
+    {operand : Tok} {pre : List Stmt} {oimp : ImpData} {sO : PState} {x lb : Tok} {ctoks : List Tok}
+    (htk : s.toks = sw :: lp :: tl) (hlp : lp.type = .LPAREN)
+    (hop : OperandAt env sn n (st (enter s) (lp :: tl)) operand pre oimp sO)
+    (hO : sO.toks = x :: lb :: ctoks) (hlb : lb.type = .LBRACE) :
+    (parseSwitchStatement env sn (n + 1)).run s =
+      finishSwitch sw s.nextSid operand pre oimp
+        ((parseSwitchCases env sn lb n [] [] false {}).run (st sO ctoks)) := by
+  rw [parseSwitchStatement]
+  rsimp [run_newSid, run_pushBreak, setSid_breakStack, enter_def, enter_toks, enter_eof, htk,
+    beq_true_of_eq hlp]
+  cases hop with
+  | @var lp' v lp2 ops rp x' tl' h0 hv hlp2 hops hrp hlen =>
+    simp only [st_toks, List.cons.injEq] at h0
+    obtain ⟨rfl, rfl⟩ := h0
+    simp only [st_toks, List.cons.injEq] at hO
+    obtain ⟨rfl, rfl⟩ := hO
+    rsimp [epv_var_run _ _ _ _ _ _ _ _ hv hlp2, oploop_run _ _ rp _ hrp ops n [] hops hlen,
+      beq_true_of_eq hlb, enter_constants]
+    simp only [headD_append_cons]
+    cases hc : (parseSwitchCases env sn lb n [] [] false {}).run (st (enter s) ctoks) with
+    | error e => rfl
+    | ok r =>
+      obtain ⟨⟨cases, hd, cimp⟩, se⟩ := r
+      rsimp [run_popBreak, finishSwitch, leave_toks, leave_eof]
+      cases cases with
+      | nil => rfl
+      | cons c cs => rfl
+  | @auto name cmd aimp s1 last rp tl' hrun h1 hrp =>
+    simp only [st_toks, List.cons.injEq] at hO
+    obtain ⟨rfl, rfl⟩ := hO
+    have hrun' : (expectPeekVarOrAutoVar env sn n).run (st (enter s) (lp :: tl)) =
+        .ok (some (name, cmd, oimp), st s1 (last :: rp :: lb :: ctoks)) := by
+      rw [hrun, st_eq_of_toks h1]; rfl
+    rsimp [hrun', beq_true_of_eq hrp, beq_true_of_eq hlb]
+    cases hc : (parseSwitchCases env sn lb n [] [] false {}).run (st s1 ctoks) with
+    | error e => rfl
+    | ok r =>
+      obtain ⟨⟨cases, hd, cimp⟩, se⟩ := r
+      rsimp [run_popBreak, finishSwitch, leave_toks, leave_eof]
+      cases cases with
+      | nil => rfl
+      | cons c cs => rfl
+
+/-- A `default` when one was already seen is rejected before anything else is looked at, the error located
+on the `default` token. -/
+theorem step_second_default (env : Env) (sn : String) (brace : Tok) (n : Nat) (cases : List SwitchCase)
+    (seen : List String) (imp : ImpData) (s : PState) (h : (s.toks.headD s.eof).type = .DEFAULT) :
+    (parseSwitchCases env sn brace (n + 1) cases seen true imp).run s =
+      .error (newParseError (s.toks.headD s.eof) multiDefaultMsg) := by
+  rw [parseSwitchCases]
+  have h1 : ((s.toks.headD s.eof).type == TT.RBRACE) = false := by rw [h]; decide
+  have h2 : ((s.toks.headD s.eof).type == TT.CASE) = false := by rw [h]; decide
+  have h3 : ((s.toks.headD s.eof).type == TT.DEFAULT) = true := by rw [h]; decide
+  rsimp [h1, h2, h3]
+  rfl
+
+/-- Reading the operand keeps the constants and the end-of-input token. -/
+theorem OperandAt.keeps {env : Env} {sn : String} {n : Nat} {s0 sO : PState} {operand : Tok}
+    {pre : List Stmt} {oimp : ImpData} (h : OperandAt env sn n s0 operand pre oimp sO) :
+    sO.constants = s0.constants ∧ sO.eof = s0.eof := by
+  cases h with
+  | var => exact ⟨rfl, rfl⟩
+  | auto hrun _ _ =>
+    obtain ⟨l, k, rfl⟩ := frame_expectPeekVarOrAutoVar env sn n s0 _ _ hrun
+    exact ⟨rfl, rfl⟩
+
+/-- **Errors of the case loop along a trace.**  If the loop, after the segments of an accepted trace, fails
+with `e` for the accumulators the trace produces, the whole loop fails with `e`. -/
+theorem error_of_iter {env : Env} {sn : String} {brace : Tok} {n m : Nat} {s sm : PState} {segs : List Seg}
+    (h : Iter env sn brace n s segs m sm) (cases : List SwitchCase) (seen : List String) (hd : Bool)
+    (imp : ImpData) (hacc : Accepted (substC s.constants) seen hd segs) (e : PFail)
+    (herr : ∀ cases' imp', (parseSwitchCases env sn brace m cases' (seenAfter (substC s.constants) seen segs)
+        (hdAfter hd segs) imp').run sm = .error e) :
+    (parseSwitchCases env sn brace n cases seen hd imp).run s = .error e := by
+  rw [run_of_iter h cases seen hd imp hacc]
+  exact herr _ _
+
+end Pory.SwitchParse
